@@ -14,7 +14,7 @@ import vlib
 PID = "C14"
 SPEC, CFG, DIAG = "Tr_Session.tla", "Tr_Session.cfg", "Tr_Session_diag.cfg"
 SIZES = {"quick": dict(n=48, maxprior=40, depths=(6, 8)), "thorough": dict(n=1500, maxprior=40, depths=(6, 11))}
-DEFAULTS = {"Hash": "16", "MultiPV": "1", "UseNullMove": "true", "Strength": "1000", "Contempt": "0", "UCI_AnalyseMode": "false", "Ponder": "false"}
+DEFAULTS = {"Threads": "1", "Hash": "16", "MultiPV": "1", "UseNullMove": "true", "Strength": "1000", "Contempt": "0", "UCI_AnalyseMode": "false", "Ponder": "false"}
 TERMINAL = ["7k/5Q2/6K1/8/8/8/8/8 b - - 0 1", "R5k1/5ppp/8/8/8/8/8/6K1 b - - 0 1", "rnb1kbnr/pppp1ppp/8/4p3/6Pq/5P2/PPPPP2P/RNBQKBNR w KQkq - 1 3",
             "k7/2Q5/1K6/8/8/8/8/8 b - - 0 1"]
 TBFENS = ["8/8/8/3k4/8/3K4/4Q3/8 w - - 0 1", "8/8/8/3k4/8/3K4/4R3/8 w - - 0 1", "8/1r6/8/6k1/8/3K4/8/7Q w - - 0 1"]
@@ -87,8 +87,9 @@ def session(bdir, sid, seed, corpus, sz, contempt):
                 A.send("ucinewgame")
                 ev.append({"e": "Cmd", "proc": "A", "kind": "newgame"})
             elif r < 0.2:
-                name = rnd.choice(["MultiPV", "UseNullMove", "Strength", "UCI_AnalyseMode"] + ([] if "Hash" in fixed else ["Hash"]))
-                val = {"MultiPV": "3", "UseNullMove": "false", "Strength": "500", "Hash": rnd.choice(["1", "64"]), "UCI_AnalyseMode": "true"}[name]
+                name = rnd.choice(["MultiPV", "UseNullMove", "Strength", "UCI_AnalyseMode", "Threads", "Threads"] + ([] if "Hash" in fixed else ["Hash"]))
+                val = {"MultiPV": "3", "UseNullMove": "false", "Strength": "500", "Hash": rnd.choice(["1", "64"]), "UCI_AnalyseMode": "true",
+                       "Threads": rnd.choice(["2", "3", "4"])}[name]      # earlier searches may use helper threads; the probe runs on one thread again
                 A.send(f"setoption name {name} value {val}")
                 changed[name] = val
                 ev.append({"e": "Cmd", "proc": "A", "kind": "setoption", "name": name, "value": val, "isDefault": False})
